@@ -272,4 +272,58 @@ pub proof fn lemma_count_set<const K: usize>(ch0: [Option<usize>; K], ch1: [Opti
 }
 
 
+// ---- shape bookkeeping for the feasibility test (kept apart from pr_inv so that the big loops only move opaque facts around) ----
+// K == 2, hidden from the big loops (a concrete K makes the recursive slot-counting definitions unfold and the proofs unstable)
+#[verifier::opaque]
+pub open spec fn k_two<const K: usize>() -> bool { K == 2 }
+#[verifier::opaque]
+pub open spec fn shape_op<const K: usize>(a: AArena<K>, in_dim: usize) -> bool { aff_shape_ok(a, in_dim) }
+#[verifier::opaque]
+pub open spec fn rows_fit<const K: usize>(n: int) -> bool { 1 <= n < 16 && (1usize << (n as usize)) <= K }
+pub proof fn lemma_shape_wrap<const K: usize>(a: AArena<K>, in_dim: usize)
+    ensures shape_op(a, in_dim) == aff_shape_ok(a, in_dim)
+{ reveal(shape_op); }
+// the decision whose children are about to be copied has a row count its branching factor allows
+pub proof fn lemma_rows_fit<const K: usize>(al: AArena<K>, dl: usize, p0: usize, n: int)
+    requires aff_shape_ok(al, dl), al.dom().contains(p0), !al[p0].isleaf, n == al[p0].value.aff.mat.nrows()
+    ensures rows_fit::<K>(n)
+{ reveal(rows_fit); }
+pub proof fn lemma_shape_add<const K: usize>(a0: AArena<K>, a1: AArena<K>, in_dim: usize, p1: usize, label: usize, c: usize)
+    requires shape_op(a0, in_dim), child_added(a0, a1, p1, label, c), a1[p1].value == a0[p1].value, rows_fit::<K>(a0[p1].value.aff.mat.nrows() as int),
+        a1[c].value.aff.ok(), a1[c].value.aff.mat.ncols() == in_dim,
+    ensures shape_op(a1, in_dim)
+{
+    reveal(shape_op); reveal(rows_fit);
+    assert forall|i: usize| #![trigger a1[i].value] a1.dom().contains(i) implies a1[i].value.aff.ok() && a1[i].value.aff.mat.ncols() == in_dim
+        && (!a1[i].isleaf ==> 1 <= a1[i].value.aff.mat.nrows() < 16 && (1usize << (a1[i].value.aff.mat.nrows() as usize)) <= K) by {
+        if i == c { } else if i == p1 { } else { assert(a1[i] == a0[i]); }
+    }
+}
+// the value of a terminal is replaced (update_node): shapes stay fine
+pub proof fn lemma_shape_write<const K: usize>(a0: AArena<K>, a1: AArena<K>, in_dim: usize, t: usize)
+    requires aff_shape_ok(a0, in_dim), same_shape(a0, a1), a0.dom().contains(t), a0[t].isleaf, forall|i: usize| a0.dom().contains(i) && i != t ==> a1[i] == a0[i],
+        a1[t].value.aff.ok(), a1[t].value.aff.mat.ncols() == in_dim,
+    ensures shape_op(a1, in_dim)
+{
+    reveal(shape_op);
+    assert forall|i: usize| #![trigger a1[i].value] a1.dom().contains(i) implies a1[i].value.aff.ok() && a1[i].value.aff.mat.ncols() == in_dim
+        && (!a1[i].isleaf ==> 1 <= a1[i].value.aff.mat.nrows() < 16 && (1usize << (a1[i].value.aff.mat.nrows() as usize)) <= K) by {
+        if i != t { assert(a1[i] == a0[i]); } else { assert(a1[t].isleaf == a0[t].isleaf); }
+    }
+}
+// a single-child decision is spliced out
+pub proof fn lemma_shape_merge<const K: usize>(a0: AArena<K>, a1: AArena<K>, in_dim: usize, p1: usize, label: usize)
+    requires shape_op(a0, in_dim), merge_post(a0, a1, p1, label, false)
+    ensures shape_op(a1, in_dim)
+{
+    reveal(shape_op);
+    let gl = choose|gl: int| merged(a0, a1, p1, label, gl);
+    let g = a0[p1].parent.unwrap();
+    let c = a0[p1].children[label as int].unwrap();
+    assert forall|i: usize| #![trigger a1[i].value] a1.dom().contains(i) implies a1[i].value.aff.ok() && a1[i].value.aff.mat.ncols() == in_dim
+        && (!a1[i].isleaf ==> 1 <= a1[i].value.aff.mat.nrows() < 16 && (1usize << (a1[i].value.aff.mat.nrows() as usize)) <= K) by {
+        assert(a0.dom().contains(i));
+        if i != g && i != c { assert(a1[i] == a0[i]); }
+    }
+}
 // ---- end pruned_spec ----
